@@ -117,6 +117,7 @@ func init() {
 		p := pool.New(0)
 		defs := append(append(c13Scenarios(), c07Scenario()), c13RaceOnly()...)
 		execs, ok := runScenarios(run, defs, bound, p)
+		lockPaths(run, "server", "glow")
 		run.Coverage["race_pass"] = racePass("c13")
 		if rp, _ := run.Coverage["race_pass"].(map[string]interface{}); rp != nil {
 			if n, _ := rp["data_races"].(int); n > 0 {
